@@ -77,6 +77,42 @@ int main(void){ sexp ctx = sexp_make_eval_context(NULL, NULL, NULL, 0, 0);
     return bad, txt + ("MISMATCH: got %d\n" % got if bad else "agrees\n")
 
 
+def replay_readnum(spec, inputs, workdir):
+    """Rebuild the literal (digits of in_val in the base, then the character) and read it with the real reader."""
+    base, val, c, neg = int(inputs.get("in_base", 10)), int(inputs.get("in_val", 0)), int(inputs.get("in_c", 48)), int(inputs.get("in_neg", 0))
+    pre = {2: "#b", 8: "#o", 10: "", 16: "#x"}.get(base)
+    if pre is None or not (48 <= c < 127):
+        return False, "no native replay for base %d / character %d" % (base, c)
+    ds, v = "", val
+    while v:
+        ds = "0123456789abcdef"[v % base] + ds; v //= base
+    lit = pre + ("-" if neg else "") + (ds or "0") + chr(c)
+    want = int(("-" if neg else "") + (ds or "0") + chr(c), base)
+    code = r"""
+#include "chibi/eval.h"
+int main(void){ sexp ctx = sexp_make_eval_context(NULL, NULL, NULL, 0, 0);
+  sexp r = sexp_read_from_string(ctx, "%s", -1);
+  if (sexp_fixnump(r)) printf("F %%ld\n", (long)sexp_unbox_fixnum(r));
+  else if (sexp_bignump(r)) { printf("B %%d %%lu", (int)sexp_bignum_sign(r), (unsigned long)sexp_bignum_length(r));
+    for (unsigned long i = 0; i < sexp_bignum_length(r); i++) printf(" %%lu", sexp_bignum_data(r)[i]); printf("\n"); }
+  else printf("O %%p\n", (void*)r);
+  return 0; }
+""" % lit
+    rc, o = native.run_driver(workdir, "replay_readnum", code)
+    line = [l for l in o.splitlines() if l[:2] in ("F ", "B ", "O ")]
+    txt = "(read) of the literal %s on the real reader\nnative: %s\nexpected %d\n" % (lit, o.strip()[-400:], want)
+    if rc != 0 or not line:
+        return ("AddressSanitizer" in o), txt
+    t = line[0].split()
+    if t[0] == "F":
+        got = int(t[1])
+    elif t[0] == "B":
+        got = _val([int(x) for x in t[3:]], int(t[1]))
+    else:
+        return True, txt + "result is not an exact integer\n"
+    return got != want, txt + ("MISMATCH: got %d\n" % got if got != want else "agrees\n")
+
+
 SMALL = ["-I@BUILD@/shim_small"]
 WORDS = {"harness": "harness/C04/words.c", "label": "bounded", "flags": SMALL,
          "stubs": ["sexp_bignum_hi", "sexp_copy_bignum"], "stub_src": ["harness/C04/stubs.c"], "unwind": 12,
@@ -210,7 +246,41 @@ _VMFLAGS = ["-I@BUILD@/shim_small", "-DVERIF_KINDFOLD=1"]
 ARITH_OPS = {"ADD": 1, "SUB": 2, "MUL": 3, "QUOTIENT": 5, "REMAINDER": 6, "LT": 7, "LE": 8, "EQN": 9}
 
 
+_RNDIR = _os.path.join(_core.BUILD, "C04", "readnum")
+
+
+def extract_readnum():
+    """Cut the digit-accumulation loop out of sexp_read_number (sexp.c of the current tree).
+    Must-fire rules: the function header, exactly one loop header `for ( ; sexp_isxdigit(c); ...)`
+    inside it, balanced braces, and the names the harness binds (val, tmp, c, digit, base, negativep)."""
+    import re as _re
+    src = open(_core.repo_file("sexp.c")).read()
+    m = _re.search(r"^sexp sexp_read_number \(sexp ctx, sexp in, int base, int exactp\) \{$", src, _re.M)
+    if not m:
+        raise _core.Undecided("must-fire: sexp_read_number header not found in sexp.c")
+    end = _re.search(r"^\}$", src[m.end():], _re.M)
+    body = src[m.end():m.end() + end.start()]
+    heads = list(_re.finditer(r"^  for \( ; sexp_isxdigit\(c\); c=sexp_read_char\(ctx, in\)\) \{$", body, _re.M))
+    if len(heads) != 1:
+        raise _core.Undecided("must-fire: digit loop header of sexp_read_number found %d times" % len(heads))
+    i = heads[0].end(); depth = 1
+    while depth and i < len(body):
+        depth += {"{": 1, "}": -1}.get(body[i], 0); i += 1
+    if depth:
+        raise _core.Undecided("must-fire: unbalanced braces after the digit loop header")
+    loop = body[heads[0].start():i]
+    for nm in ("val", "tmp", "digit", "base", "negativep", "sexp_read_bignum"):
+        if not _re.search(r"\b%s\b" % nm, loop):
+            raise _core.Undecided("must-fire: digit loop of sexp_read_number no longer mentions %s" % nm)
+    decl = body[:heads[0].start()]
+    if not _re.search(r"sexp_sint_t val = 0, tmp = -1;", decl) or not _re.search(r"int c, digit, negativep = 0", decl):
+        raise _core.Undecided("must-fire: declarations of val/tmp/c/digit in sexp_read_number changed")
+    _os.makedirs(_RNDIR, exist_ok=True)
+    _core._write_if_changed(_os.path.join(_RNDIR, "readnum_loop.inc"), loop + "\n")
+
+
 def prepare(tier):
+    extract_readnum()
     fl = [f.replace("@BUILD@", _core.BUILD) for f in _VMFLAGS]
     _vmx.write_ops(_VMDIR, sorted(ARITH_OPS), fl)
     # macros are expanded at extraction time: the MUL wrapper with the uninterpreted product is a separate extraction
@@ -239,6 +309,14 @@ for _op, _code in sorted(ARITH_OPS.items()):
                            for dv in ("1", "(-1)", "2", "(-2)", "3", "(-3)", "7", "10", "(1L<<31)", "SEXP_MIN_FIXNUM", "SEXP_MAX_FIXNUM", "0")]
         _g["instances"].append({"name": "small_pairs", "defs": dict(_d, SMALL_OPERANDS=10)})
     GROUPS.append(_g)
+GROUPS.append({"name": "read_number_digits", "label": "proved", "harness": "harness/C04/readnum.c", "entry": "h_readnum_step",
+               "flags": SMALL + ["-I@BUILD@/C04/readnum"], "unwind": 3, "min_obligations": 6, "timeout": 300, "mem_gb": 4, "replay": replay_readnum,
+               "functions": ["sexp.c:sexp_read_number (digit-accumulation loop, extracted on every run)", "sexp.c:digit_value"],
+               "bound": "none: inductive step of the loop invariant from an arbitrary invariant state (any val in the fixnum range, any character), so the loop is closed for every literal length",
+               "assumptions": ["the loop text is cut out of sexp_read_number mechanically; prefix/sign parsing before it and the '.', '/', exponent and complex suffixes after it are not covered",
+                               "libc isxdigit replaced by its C-locale definition (0-9, a-f, A-F)",
+                               "sexp_read_char / sexp_push_char / sexp_read_bignum are recording stubs: the port and the bignum reader are outside this obligation"],
+               "instances": [{"name": "base%d" % b, "defs": {"BASE": b}} for b in (2, 8, 10, 16)] + [{"name": "base_any", "tiers": ["thorough"]}]})
 META = {
  "level": "other",
  "explanation": 'mixed: the integer<->word conversions, sexp_bignum_hi, sexp_number_type and the fixnum fast paths of the VM arithmetic opcodes are proved for all 2^64 / 2^124 inputs; bignum add/sub/compare/normalise/fxmul and the generic sexp_add/sub/quotient/remainder entry points are bounded by operand length (up to 3 words), contents symbolic.',
